@@ -22,8 +22,20 @@ from kmip.core import enums
 def parse_policy(policy):
     result = {}
 
+    if not isinstance(policy, dict):
+        raise ValueError(
+            "A policy section must be a JSON object mapping object types to "
+            "operation policies."
+        )
+
     for object_type, operation_policies in six.iteritems(policy):
         processed_operation_policies = {}
+
+        if not isinstance(operation_policies, dict):
+            raise ValueError(
+                "The operation policies for '{0}' must be a JSON "
+                "object.".format(object_type)
+            )
 
         for operation, permission in six.iteritems(operation_policies):
             try:
@@ -75,7 +87,16 @@ def read_policy_from_file(path):
     object_types = set([t.name for t in enums.ObjectType])
     result = {}
 
+    if not isinstance(policy_blob, dict):
+        raise ValueError(
+            "The policy file '{}' must contain a JSON object.".format(path)
+        )
+
     for name, object_policy in policy_blob.items():
+        if not isinstance(object_policy, dict):
+            raise ValueError(
+                "Policy '{}' must be a JSON object.".format(name)
+            )
         if len(object_policy.keys()) == 0:
             continue
 
@@ -90,6 +111,11 @@ def read_policy_from_file(path):
 
             group_policies = object_policy.get('groups')
             if group_policies:
+                if not isinstance(group_policies, dict):
+                    raise ValueError(
+                        "The 'groups' section of policy '{}' must be a JSON "
+                        "object.".format(name)
+                    )
                 parsed_group_policies = dict()
                 for group_name, group_policy in six.iteritems(group_policies):
                     parsed_group_policies[group_name] = parse_policy(
@@ -103,6 +129,11 @@ def read_policy_from_file(path):
             result[name] = {'preset': policy}
         else:
             invalid_sections = sections - policy_sections - object_types
+            if not invalid_sections:
+                raise ValueError(
+                    "Policy '{}' mixes policy sections and object "
+                    "types.".format(name)
+                )
             raise ValueError(
                 "Policy '{}' contains an invalid section named: "
                 "{}".format(name, invalid_sections.pop())
